@@ -67,7 +67,7 @@ def bump_water(rng, res, target_idx, resseq=900):
     return None
 
 
-def gen_case(rng, force=None, kind=None, offslot=False):
+def gen_case(rng, force=None, kind=None, offslot=False, backbone=False):
     """-> (pdb text, options, features)"""
     feats = {}
     kind = kind or rng.choice(["bump", "bump", "bump", "plain", "ss", "missing", "gap", "partial-h"])
@@ -79,7 +79,7 @@ def gen_case(rng, force=None, kind=None, offslot=False):
         feats["pos"] = "?"
     else:
         target = force or rng.choice(G.AA3)
-        n = rng.choice([1, 2, 3, 4, 6]) if kind != "gap" else rng.choice([5, 6, 8])
+        n = (rng.choice([1, 2, 3, 4, 6]) if not backbone else rng.choice([3, 4, 6])) if kind != "gap" else rng.choice([5, 6, 8])
         _f, res = G.window(rng, n, must_have=target)
         G.set_chain(res, "A", rng.choice([1, 17, 250]))
         if kind == "gap" and len(res) >= 5:
@@ -116,7 +116,7 @@ def gen_case(rng, force=None, kind=None, offslot=False):
             # delete the outermost side-chain atoms of the target so that repair_heavy rebuilds them
             r = res[ti]
             side = [a for a in r if a.name not in ("N", "CA", "C", "O", "OXT", "CB")]
-            backbone_instead = len(res) >= 2 and sum(len(x) for x in res) >= 12 and rng.random() < 0.5
+            backbone_instead = len(res) >= 2 and sum(len(x) for x in res) >= 12 and (backbone or rng.random() < 0.5)
             if side and not backbone_instead:
                 if len(side) >= 2 and rng.random() < 0.3:
                     # a single atom missing from the MIDDLE of the side chain (its outer neighbours are there)
@@ -436,6 +436,12 @@ def targeted_search(ctx: Ctx, seen_sig, budget=40):
             ti = want if want is not None else idx[0]
             G.set_chain(res, "A", 1)
             waters = [w for w in (bump_water(rng, res, ti, 900 + k) for k in range(rng.choice([1, 2, 3]))) if w]
+            if tries % 2 == 0:
+                # the order of the atoms inside a residue is free in the input
+                for k2, rr in enumerate(res):
+                    r2 = list(rr)
+                    rng.shuffle(r2)
+                    res[k2] = r2 if tries % 4 == 0 else sorted(rr, key=lambda a: a.name)
             text = G.to_pdb([res], waters)
             opts = ["--ff=AMBER"]
             with Monitor(max_torsion_records=0) as m:
